@@ -4,9 +4,12 @@
            | 3 :: offset  FixedTimezone(offset) built by the model constructor (default name)
            | 4 :: offset  datetime.timezone(timedelta(seconds=offset)) | 5 :: key :: zone window  zoneinfo.ZoneInfo(key)  (standard-library tzinfos).
    endpoint: 0 :: ordinal (Date) | 1 :: W :: fold :: tzspec (DateTime).
+   hist (Model/PickleHistory.v): route :: kind (1 dt | 3 time | 6 tz) :: n :: n history calls :: value body as in the entry `kind` :: m :: m later calls;
+           a call: 1 :: off  pendulum.timezone(off) | 2 :: key  pendulum.timezone("<key>") | 3 :: tzspec  constructed directly | 4 :: route :: tzspec  copied
+           | 5  another value copied (no output);  result 0 :: length-prefixed segments: one per history call, the original, the copy, one per later call.
    Results: 0 :: observation, [1; exn code], [9] bad call. *)
 From Coq Require Import ZArith List Bool String.
-From PV Require Import Lib.PyBase Spec.Cal Spec.Zone Spec.TdFloat Model.Duration Model.TzDispatch Gen.Reduce Model.Pickle.
+From PV Require Import Lib.PyBase Spec.Cal Spec.Zone Spec.TdFloat Model.Duration Model.TzDispatch Gen.Reduce Model.Pickle Model.PickleHistory.
 Import ListNotations.
 Open Scope Z_scope.
 
@@ -32,6 +35,32 @@ Definition parse_ep (l : list Z) : option (ep * option (Z * zone) * list Z) :=
       | None => None
       end
   | _ => None
+  end.
+
+Definition parse_op (l : list Z) : option (hop * list Z) :=
+  match l with
+  | 1 :: off :: r => Some (HTimezoneInt off, r)
+  | 2 :: k :: r => Some (HTimezoneName k, r)
+  | 3 :: r => match parse_tz r with Some (t, _, rest) => Some (HMakeTz t, rest) | None => None end
+  | 4 :: rt :: r => match parse_tz r with Some (t, _, rest) => Some (HCopyTz (route_of rt) t, rest) | None => None end
+  | 5 :: r => Some (HOther, r)
+  | _ => None
+  end.
+Fixpoint parse_ops (n : nat) (l : list Z) : option (list hop * list Z) :=
+  match n with
+  | O => Some ([], l)
+  | S k => match parse_op l with
+           | Some (o, rest) => match parse_ops k rest with Some (os, rest') => Some (o :: os, rest') | None => None end
+           | None => None
+           end
+  end.
+(* the value of a hist call: what is copied, the zone behind its tzinfo, the remaining integers *)
+Definition parse_hval (kind : Z) (l : list Z) : option (hval * zone * list Z) :=
+  match kind, l with
+  | 1, W :: f :: tzs => match parse_tz tzs with Some (t, z, rest) => Some (HvDt (mkdt W (zb f) t), z, rest) | None => None end
+  | 3, T :: f :: tzs => match parse_tz tzs with Some (t, z, rest) => Some (HvTm (mktm T (zb f) t), z, rest) | None => None end
+  | 6, tzs => match parse_tz tzs with Some (t, z, rest) => Some (HvTz t, z, rest) | None => None end
+  | _, _ => None
   end.
 
 Definition out {A} (obs : A -> list Z) (r : result A) : list Z :=
@@ -86,5 +115,18 @@ Definition dispatch (fn : Z) (args : list Z) : list Z :=
       | _ => [9]
       end
   | 7 (* tables *), [c] => 0 :: class_tables c
+  | 8 (* hist *), r :: kind :: nb :: rest =>
+      match parse_ops (Z.to_nat nb) rest with
+      | Some (before, rest1) =>
+          match parse_hval kind rest1 with
+          | Some (v, z, na :: rest2) =>
+              match parse_ops (Z.to_nat na) rest2 with
+              | Some (after, []) => 0 :: hres_codes (hist_run (fun _ => z) before (route_of r) v after)
+              | _ => [9]
+              end
+          | _ => [9]
+          end
+      | None => [9]
+      end
   | _, _ => [9]
   end.
